@@ -253,8 +253,11 @@ def handle (tag : String) (args : List String) (obs : String) : String :=
       -- reset may discard the tail of what the server had written (TCP, not servlin).  Then, and only
       -- then, a transcript that is a proper prefix of the expected one is accepted.
       let obsWire := (obsGet obs "wire").bind decBytes
+      -- (not in the schedules that send a request only after the previous answer has been read: there the server never
+      --  holds unread client bytes when it closes, so nothing can be lost to a reset)
+      let oneAtATime := _sched == "pingpong" || _sched == "linger" || _sched == "wait100"
       let tailLost := match obsWire with
-        | some w => !c.input.isEmpty && w.length < c.wire.length && w.isPrefixOf c.wire
+        | some w => !oneAtATime && !c.input.isEmpty && w.length < c.wire.length && w.isPrefixOf c.wire
         | none => false
       let isRst := _sched.startsWith "rst"
       let shownWire := if tailLost || isRst then obsWire.getD c.wire else c.wire
@@ -285,6 +288,9 @@ def handle (tag : String) (args : List String) (obs : String) : String :=
           let fails := (if parOk then [] else ["concurrent-connections-interfere"]) ++
             (if isRst then [] else exchangeCheck reqs obsCalls (if tailLost then c.wire else wire) (_sched.startsWith "cut" || _sched.startsWith "busy")) ++
             (if files == "0" then [] else ["temp-file-left-behind"]) ++
+            -- the disk failed while an upload was saved (cache = 3): whatever is answered for it is a 5xx, never a 4xx (C20)
+            (if cache == "3" && (((ConnContract.responses (wire.length + 1) wire []).getD []).filter (·.code / 100 != 1)).any (·.code / 100 == 4)
+               then ["server-fault-answered-as-client-error"] else []) ++
             (if outlivedS != "" && obsGet obs "outlived" != some "0" then ["temp-file-outlives-its-request"] else []) ++
             (if _sched == "hold" && earlyS != "" && obsGet obs "early" != some (earlyS.drop 7).toString then
                (if earlyS == " early=1" then ["over-limit-body-read-past-limit"] else ["answered-before-end-of-body"]) else []) ++ (if tag == "c09" then sizeCheck s (cache != "0") reqs obsCalls wire else [])
